@@ -220,7 +220,16 @@ def impl_writer(case):
             return "threadpool"
 
     writer = lw.ThreadedWriter(destination, Reactor())
-    writer._queue = LogQueue(sched, "queue")
+    # replace the writer's queue, whatever attribute holds it (a rename must not turn into a hang)
+    import queue as _queue_mod
+    _replaced = False
+    the_queue = LogQueue(sched, "queue")
+    for _name, _val in list(vars(writer).items()):
+        if isinstance(_val, (_queue_mod.SimpleQueue, _queue_mod.Queue)):
+            setattr(writer, _name, the_queue)
+            _replaced = True
+    if not _replaced:
+        writer._queue = the_queue
 
     def snap():
         return [bool(writer.running), any(d is writer for d in orig._destinations)]
@@ -280,7 +289,7 @@ def impl_writer(case):
     events = [[k, names[t] if t is not None else None, info] for k, t, info in sched.events]
     return {"events": events, "calls": calls, "callers": caller_idents, "hang": hang,
             "results": [[names[t], r] for t, r in enumerate(sched.results)],
-            "left": [desc(x) for x in writer._queue.items], "final": snap(),
+            "left": [desc(x) for x in the_queue.items], "final": snap(),
             "blocked": sorted({names[t] for t in blocked_log}), "steps": len(sched.trace)}
 
 
